@@ -51,8 +51,13 @@ def gen_cases(tier, seed):
     for name, par, mdom, ddom in LOSSES:
         for i in range(nt):
             N = int(rng.integers(2, 5))
-            yield {"w": "tensor", "loss": name, "par": par, "mdom": mdom, "ddom": ddom, "shape": [int(s) for s in rng.integers(2, 4, size=N)],
-                   "R": int(rng.integers(1, 4)), "lam": ["unit", "unit", "nonunit"][int(rng.integers(0, 3))],
+            shp = [int(s) for s in rng.integers(2, 4, size=N)]
+            if i % 6 == 4:
+                # all-modes MTTKRP: a dominant first or last mode moves the memory-optimal split off-centre; five modes always involve
+                # two or more factor matrices in a partial product
+                shp = [[7, 2, 2, 3], [2, 2, 3, 7], [2, 2, 2, 2, 3], [3, 2, 2, 2, 2], [2, 6, 2, 2]][int(rng.integers(0, 5))]
+            yield {"w": "tensor", "loss": name, "par": par, "mdom": mdom, "ddom": ddom, "shape": shp,
+                   "R": int(rng.integers(1, 4)), "lam": ["unit", "unit", "nonunit", "unit", "mixed"][int(rng.integers(0, 5))],
                    "wk": ["none", "mask", "real"][int(rng.integers(0, 3))], "sample": ["once", "shuffled", "repeats"][i % 3],
                    "sparse_data": bool(rng.integers(0, 2)), "cseed": int(seed) * 373587883 + next(cs)}
 
@@ -136,13 +141,18 @@ def run_case(case, ctx):
     # ---- tensor level ---------------------------------------------------------------------------
     shape = tuple(case["shape"])
     N, R = len(shape), case["R"]
-    ctx.feat(lam=case["lam"], wk=case["wk"], sample=case["sample"], N=N)
+    mixed = case["lam"] == "mixed" and R >= 2
+    lamk = "unit" if (case["lam"] == "unit" or (case["lam"] == "mixed" and R < 2)) else "nonunit"
+    ctx.feat(lam=lamk, wk=case["wk"], sample=case["sample"], N=N)
     if case["mdom"] == "pos":
         fm = [rng.uniform(0.3, 1.5, size=(s, R)) for s in shape]
-        lam = np.ones(R) if case["lam"] == "unit" else rng.uniform(0.5, 2.0, size=R)
+        lam = np.ones(R) if lamk == "unit" else rng.uniform(0.5, 2.0, size=R)
     else:
         fm = [rng.uniform(-1.2, 1.2, size=(s, R)) for s in shape]
-        lam = np.ones(R) if case["lam"] == "unit" else rng.uniform(0.5, 2.0, size=R) * rng.choice([-1.0, 1.0], size=R)
+        lam = np.ones(R) if lamk == "unit" else rng.uniform(0.5, 2.0, size=R) * rng.choice([-1.0, 1.0], size=R)
+    if mixed:
+        lam[int(rng.integers(0, R))] = 1.0          # some weights exactly one, others not
+        ctx.tag("weights-mixed-with-exact-one")
     M = ttb.ktensor([f.copy() for f in fm], lam.copy())
     Md = denote(M)
     Xd = _data_vals(rng, case["ddom"], int(np.prod(shape))).reshape(shape)
@@ -193,8 +203,25 @@ def run_case(case, ctx):
         for k in range(N):
             one = Yt.mttkrp([f.copy() for f in fm], k)
             ctx.check(close(allg.value[k], one, tol=1e-10), "tensor.mttkrps", "WRONG", f"mode {k}: mttkrps differs from mttkrp", mode_k=min(k, 3))
+    if lamk != "unit":
+        # the estimator's own weight handling: with the weight check on, a model with non-unit weights is evaluated as the tensor it
+        # denotes (only the objective is comparable: the gradient then refers to the re-normalised parameterisation)
+        import warnings
+
+        subs = np.array(list(np.ndindex(*shape)))
+        Mc = M.copy()
+        with warnings.catch_warnings():
+            warnings.simplefilter("ignore")
+            re = ctx.call("estimate", estimate, Mc, subs.copy(), Xd[tuple(subs.T)].copy(), np.ones(subs.shape[0]), fh, None, True, None)
+        if not re.ok:
+            ctx.check(False, "estimate", "RAISE:" + type(re.exc).__name__, f"{type(re.exc).__name__}: {re.exc} | {re.tb}", lambda_check=True)
+        else:
+            fs2 = float(np.sum(np.abs(L))) + 1e-300
+            ctx.check(abs(float(re.value) - float(np.sum(L))) <= 1e-9 * fs2, "estimate", "WRONG-OBJECTIVE",
+                      f"lambda_check=True, weights {lam.tolist()}: estimate over all entries {re.value!r} vs exact {float(np.sum(L))!r}", lambda_check=True)
+            ctx.check(close(denote(Mc), Md, tol=1e-10), "estimate", "CHANGED-TENSOR", "estimate(lambda_check=True) changed the tensor the model denotes", lambda_check=True)
     # sampled estimator on every entry with unit weights == exact evaluation (unweighted objective)
-    if case["lam"] == "unit":
+    if lamk == "unit":
         subs = np.array(list(np.ndindex(*shape)))
         if case["sample"] == "shuffled":
             subs = subs[rng.permutation(subs.shape[0])]
